@@ -177,6 +177,12 @@ def cases(draw, family):
     if family == "transformer":
         kind = draw(st.sampled_from([k for k in panelpool.PANEL_TRANSFORMERS if k != "plateau"]))
         spec = {"kind": kind, "random_state": draw(st.integers(0, 50))}
+        spec["num_intervals"] = draw(st.integers(1, 7))
+        spec["n_intervals"] = draw(st.integers(1, 4))
+        spec["intervals"] = draw(st.integers(1, 5))
+        spec["window_length"] = draw(st.integers(1, 7))
+        spec["length"] = draw(st.integers(2, 25))
+        spec["num_kernels"] = draw(st.integers(2, 12))
         if kind == "pad":
             spec["pad_length"] = 40
         if kind == "trunc":
